@@ -7,11 +7,12 @@ ASSUMPTIONS = ['each shared access between two synchronisation calls is atomic (
 
 
 def main(tier, seed, replay=None):
-    ck, ok = CC.run_property("C10", tier, seed, replay, ['produce', 'produce', 'produce_raise', 'consume'], lambda s: s.startswith(('callback-items-differ', 'callback-endmarker', 'receive-after-setcallback', 'endmarker-never-delivered')), None, ASSUMPTIONS, extra=EXTRA)
+    ck, ok = CC.run_property("C10", tier, seed, replay, ['produce', 'produce', 'produce_raise', 'consume'], lambda s: s.startswith(('callback-items-differ', 'callback-endmarker', 'receive-after-setcallback', 'endmarker-never-delivered', 'multichannel-')), None, ASSUMPTIONS, extra=EXTRA)
     try:
         from props import chan_model
 
         chan_model.correspondence(ck, ok, "C10", tier, replay)
+        chan_model.multichannel_queue(ck, tier, replay)
     except ImportError:
         pass
     return ck.finish(rule='programs whose initiator side installs a callback with endmarker before, between and after the arrival of the items and of the close (early and late setcallback), ending by normal end of the remote_exec or by a remote error; random/PCT schedules with line-level preemption.')
